@@ -174,8 +174,10 @@ TREE_EXTRA = ("Store kinds: memory, level(mem,mem), level(mem,persistent), persi
               "after a save produces. Path lengths up to 256 hex characters. 1 in 700 runs stores values 0-700 bytes (biased to the last dozen) "
               "below util.MPTMaxAllowableNodeSize, the largest value Insert accepts. Content is read through the trie under test, through "
               "throw-away trie objects on the same store (half of the runs) or through util.CloneMPT (1 in 8); in a third of the runs the reads "
-              "alternate between Iterate over value nodes, Iterate over all node types and IterateFrom(root).")
-ROUND_EXTRA = ("1 in 10 transactions is followed by a mid-round SaveChanges of the block's trie (C04: the root saved then must still be complete on the store after the round's final save; C05: the dead nodes of that moment are recorded, and recorded again by the final save). 1 in 120 runs has one round that inserts 200-500 keys (more nodes than the 256-node batch size); 1 in 15 runs uses sparse round "
+              "alternate between Iterate over value nodes, Iterate over all node types and IterateFrom(root). C14: a third of the runs change the trie version "
+              "between operations. C17: 1 in 4 repairs use as donor the level store of a peer that has moved on (lower level = complete state, a trie of the next "
+              "version has rewritten 1-3 keys over it).")
+ROUND_EXTRA = ("1 in 10 transactions is followed by a mid-round SaveChanges of the block's trie (1 in 20 histories store values that are byte for byte the hash preimage of a node of the current state; C04: the root saved then must still be complete on the store after the round's final save; C05: the dead nodes of that moment are recorded, and recorded again by the final save). 1 in 120 runs has one round that inserts 200-500 keys (more nodes than the 256-node batch size); 1 in 15 runs uses sparse round "
                "numbers whose low bits repeat (jumps of 2^16 / 2^32 / 2^48); 1 in 10 rounds contains a 'sync': the complete state of the previous "
                "round is merged into the block's trie from a separate store (MergeDB back to the previous root).")
 CACHE_EXTRA = ("Value kinds: mutable byte values, trie nodes (C07), and the package's immutable statecache.String (1 in 5 runs); 1 in 8 runs draws "
@@ -189,13 +191,13 @@ ADDENDA = {
     "C04": ROUND_EXTRA, "C05": ROUND_EXTRA,
     "C06": CACHE_EXTRA + " Long chains (1 in 40 runs) write through block caches and transactions (set, remove, set-and-remove) and read at the tip as well.",
     "C07": CACHE_EXTRA,
-    "C08": "1 in 12 runs starts from a committed chain of 200-215 blocks that all wrote k0 (the 200-entry per-key version table is full), with the concurrent lookups near the tip.",
+    "C08": "1 in 9 runs starts from a committed chain of 200-215 blocks that all wrote k0 (the 200-entry per-key version table is full), with the concurrent lookups near the tip; half of those runs are about k0 only. The sequential pre-phase commits a prefix of the new blocks or (1 in 3 runs, 1 in 2 hot-key runs) any subset in any order, so that the concurrent phase starts with committed children of uncommitted parents.",
     "C09": "Value lengths 1-8 bytes, and 31-1000 bytes with the distinguishing bytes at the end (1 in 6 values); 1 in 120 runs commits 150-450 keys at once. 1 in 8 runs of C09/C11/C13 uses a twin-subtree key pool (2-3 prefixes x 2-3 tails, values a function of the tail: byte-identical subtrees at different positions).",
     "C10": "1 in 6 runs a key owner stores a value that embeds the hash of a value node of their choosing (as its last 32 bytes, or as the first of sixteen 32-byte slots); tamperings additionally: 'retype' (an inner node presented as a value node) and 'leafas' (a leaf presented as a short node or branch, with the chosen node appended below the end of the key path).",
     "C11": "Half of the non-collapsing (level 64) commits hold their batch back: it is written only after the next Commit() has run, in order (Commit hands the batch to the caller). 1 in 120 runs commits 150-450 keys at once. 1 in 8 runs of C09/C11/C13 uses a twin-subtree key pool (2-3 prefixes x 2-3 tails, values a function of the tail: byte-identical subtrees at different positions).",
     "C12": "1 in 120 runs has 150-450 keys; 1 in 3000 runs exports every key of a trie with 56000-70000 keys (more than 2^17 nodes).",
     "C13": "The harness executes every history (further commits and collector passes under an abandoned checkpoint included) and only JUDGES a rollback inside the quantifier's window (exactly one commit, at most one collector pass since the latest SaveRoot). Half of the runs are round-structured: optional SaveRoot, a batch (random changes / return to exactly the checkpoint's content / delete everything / empty), commit, 0-2 collector passes, optional rollback. 1 in 120 runs commits 150-450 keys at once. 1 in 8 runs of C09/C11/C13 uses a twin-subtree key pool (2-3 prefixes x 2-3 tails, values a function of the tail: byte-identical subtrees at different positions). 1 in 1000 runs steers a commit to an exact number of new storage keys (128..2048) by repeating checkpoint / commit of n new keys / rollback with n adjusted by feedback; every rollback on the way is judged.",
-    "C15": "Message-level operators additionally: pairs.collapse (a whole subtree of a pre-order export replaced by a hash reference claiming the same hash and weight) and pairs.rekind (a node replaced by a node of another kind claiming the same hash).",
+    "C15": "Message-level operators additionally: pairs.relink (a subtree replaced by a nil node / hash reference / value / empty branch and the hash its parent claims for that slot rewritten to match), pairs.collapse (a whole subtree of a pre-order export replaced by a hash reference claiming the same hash and weight) and pairs.rekind (a node replaced by a node of another kind claiming the same hash).",
     "C16": "Task operations additionally: a child trie opened on the shared trie, one insert, MergeMPTChanges (atomic put or rejected); MergeDB of a separately built trie (porcupine 'setall'); Validate/GetNodeDB/GetVersion; SaveChanges with an already cancelled context: it returns at once and the task goes on while the abandoned writer goroutine, a scheduled task of its own, still has to write. 1 in 7 runs is a judged-saves run (writes, lookups, saves and abandoned saves only): every save writes into a store of its own, and after the run the nodes found there must make up the complete trie of a root that was current at some moment between that save's call and its return.",
 }
 for _k, _t in ADDENDA.items():
